@@ -127,13 +127,13 @@ pub struct LenS {
 
 /// component-wise equality of length-decoder states (avoids extensionality obligations)
 pub open spec fn lens_eq(a: LenS, b: LenS) -> bool {
-    &&& a.choice == b.choice && a.choice2 == b.choice2 && a.high == b.high
+    &&& a.choice == b.choice && a.choice2 == b.choice2 && a.high =~= b.high
     &&& a.low.len() == 16 && b.low.len() == 16 && a.mid.len() == 16 && b.mid.len() == 16
-    &&& forall|i: int| 0 <= i < 16 ==> #[trigger] a.low[i] == b.low[i]
-    &&& forall|i: int| 0 <= i < 16 ==> #[trigger] a.mid[i] == b.mid[i]
+    &&& forall|i: int| 0 <= i < 16 ==> #[trigger] a.low[i] =~= b.low[i]
+    &&& forall|i: int| 0 <= i < 16 ==> #[trigger] a.mid[i] =~= b.mid[i]
 }
-pub proof fn lemma_lens_eq(a: LenS, b: LenS)
-    requires lens_eq(a, b),
+pub broadcast proof fn lemma_lens_eq(a: LenS, b: LenS)
+    requires #[trigger] lens_eq(a, b),
     ensures a == b,
 {
     assert(a.low =~= b.low);
@@ -141,6 +141,7 @@ pub proof fn lemma_lens_eq(a: LenS, b: LenS)
 }
 
 /// LenDecoder::Decode(posState): returns the length minus kMatchMinLen (2): 0..7, 8..15, 16..271.
+#[verifier::opaque]
 pub open spec fn sp_len(rc: Rc, ld: LenS, pos_state: nat, upd: bool) -> Option<(nat, Rc, LenS)> {
     match sp_bit(rc, ld.choice, upd) {
         None => None,
